@@ -11,7 +11,6 @@ import (
 )
 
 type Locker = sync.Locker
-type RWMutex = sync.RWMutex
 type WaitGroup = sync.WaitGroup
 type Once = sync.Once
 type Pool = sync.Pool
@@ -161,3 +160,99 @@ func (c *Cond) Broadcast() {
 //
 //go:norace
 func (c *Cond) Waiters() int { return len(c.waiters) }
+
+// RWMutex is a drop-in for sync.RWMutex (zero value ready to use): inside a scheduler run its four
+// operations are scheduling points with the blocking semantics of a readers/writer lock (no writer
+// preference is modelled: any enabled waiter may go next, which is a superset of what Go allows).
+type RWMutex struct {
+	real    sync.RWMutex
+	writer  bool
+	readers int
+	epoch   int
+	wtok    int // happens-before tokens for the race mode (what sync.RWMutex announces)
+	rtok    int
+}
+
+//go:norace
+func (m *RWMutex) fresh() {
+	if m.epoch != sched.Epoch() {
+		m.writer, m.readers, m.epoch = false, 0, sched.Epoch()
+	}
+}
+
+//go:norace
+func (m *RWMutex) canWrite() bool { m.fresh(); return !m.writer && m.readers == 0 }
+
+//go:norace
+func (m *RWMutex) canRead() bool { m.fresh(); return !m.writer }
+
+//go:norace
+func (m *RWMutex) Lock() {
+	switch sched.CurMode() {
+	case sched.ModeActive:
+		sched.Cur().Yield(sched.Op{Kind: "lock", Obj: m, Enabled: m.canWrite})
+		m.fresh()
+		m.writer = true
+		sched.RaceAcquire(unsafe.Pointer(&m.wtok))
+		sched.RaceAcquire(unsafe.Pointer(&m.rtok))
+	case sched.ModeAborting:
+	default:
+		m.real.Lock()
+	}
+}
+
+//go:norace
+func (m *RWMutex) Unlock() {
+	switch sched.CurMode() {
+	case sched.ModeActive:
+		m.fresh()
+		if !m.writer {
+			panic("vsync: Unlock of an RWMutex that is not write-locked")
+		}
+		sched.RaceRelease(unsafe.Pointer(&m.wtok))
+		m.writer = false
+		sched.Cur().Yield(sched.Op{Kind: "unlock", Obj: m})
+	case sched.ModeAborting:
+	default:
+		m.real.Unlock()
+	}
+}
+
+//go:norace
+func (m *RWMutex) RLock() {
+	switch sched.CurMode() {
+	case sched.ModeActive:
+		sched.Cur().Yield(sched.Op{Kind: "rlock", Obj: m, Enabled: m.canRead})
+		m.fresh()
+		m.readers++
+		sched.RaceAcquire(unsafe.Pointer(&m.wtok))
+	case sched.ModeAborting:
+	default:
+		m.real.RLock()
+	}
+}
+
+//go:norace
+func (m *RWMutex) RUnlock() {
+	switch sched.CurMode() {
+	case sched.ModeActive:
+		m.fresh()
+		if m.readers <= 0 {
+			panic("vsync: RUnlock of an RWMutex that is not read-locked")
+		}
+		sched.RaceReleaseMerge(unsafe.Pointer(&m.rtok))
+		m.readers--
+		sched.Cur().Yield(sched.Op{Kind: "runlock", Obj: m})
+	case sched.ModeAborting:
+	default:
+		m.real.RUnlock()
+	}
+}
+
+// RLocker mirrors sync.RWMutex.RLocker.
+func (m *RWMutex) RLocker() Locker { return (*rlocker)(m) }
+
+type rlocker RWMutex
+
+func (r *rlocker) Lock()   { (*RWMutex)(r).RLock() }
+func (r *rlocker) Unlock() { (*RWMutex)(r).RUnlock() }
